@@ -32,7 +32,7 @@ fn strategy(t: Tier) -> BoxedStrategy<History> {
 fn parts() -> Vec<Box<dyn PartDyn>> {
     vec![Box::new(GenPart {
         name: "history",
-        quick: 8_000,
+        quick: 20_000,
         thorough: 200_000,
         shrink_iters: 1500,
         strat: strategy,
